@@ -400,11 +400,14 @@ def value_sig(ev, st, v, out, depth=0):
         out.append(T.sym("<%s>" % type(v).__name__, 1))
 
 
-def fresh_value(ev, tyid, call, label, depth=0):
+def fresh_value(ev, tyid, call, label, depth=0, st=None):
     """a value of type tyid determined by the opaque call atom `call`"""
     if tyid is None:
         return OpaqueV(None, "%s#%d" % (label, call.id))
     t = ev.tys[tyid]
+    if t["k"] in ("ref", "ptr") and st is not None and depth < 3:
+        inner = fresh_value(ev, t["to"], call, label + ".*", depth + 1, st)
+        return Ref(st.alloc(inner, "fresh"), (), None, t["mut"])
     w = ev.scalar_width(tyid)
     if w is not None:
         return T.atom("res", w, (call,), label)
@@ -451,7 +454,7 @@ def opaque_call(ev, st, ctx, why):
     # effects on &mut arguments
     for i, (a, aty) in enumerate(zip(ctx.args, ctx.argtys)):
         havoc_arg(ev, st, a, aty, call, i)
-    return fresh_value(ev, ctx.dest_ty, call, "ret")
+    return fresh_value(ev, ctx.dest_ty, call, "ret", 0, st)
 
 
 def havoc_arg(ev, st, a, aty, call, i):
@@ -1187,8 +1190,67 @@ def p_panic(ev, st, ctx):
       "re:core::fmt::Formatter::<'a>::debug_(struct|tuple)_fields_finish",
       "re:core::fmt::rt::Argument::<'_>::new_.*",
       "core::fmt::Formatter::<'a>::debug_struct", "core::fmt::Formatter::<'a>::debug_tuple",
-      "re:core::fmt::builders::Debug(Struct|Tuple)::<'a, 'b>::(field|finish|finish_non_exhaustive)",
+      "re:core::fmt::(builders::)?Debug(Struct|Tuple|List|Set|Map)::<'a, 'b>::(field|finish|finish_non_exhaustive|entry|entries|key|value)",
+      "core::fmt::Formatter::<'a>::debug_list", "core::fmt::Formatter::<'a>::debug_set", "core::fmt::Formatter::<'a>::debug_map",
+      "core::fmt::Formatter::<'a>::pad", "core::fmt::Formatter::<'a>::pad_integral", "core::fmt::Formatter::<'a>::write_char",
+      "core::fmt::write",
       "<[T] as core::fmt::Debug>::fmt", "re:<.* as core::fmt::(Debug|Display)>::fmt")
 def p_fmt_sink(ev, st, ctx):
-    ev.fmt_calls.append((ctx.fr.body["key"], ctx.callee.get("rdef") or ctx.callee.get("def"), list(ctx.args), ctx.span))
+    """formatting sink: trait objects whose fmt body is available are followed; everything else that
+    reaches the formatter is recorded as a leaf (callee, value) for the taint rule of C17"""
+    name = ctx.callee.get("rdef") or ctx.callee.get("def")
+    for a in ctx.args:
+        follow_fmt_arg(ev, st, ctx, name, a)
     return opaque_call(ev, st, ctx, "fmt")
+
+
+def sym_names(ev, st, v):
+    sig = []
+    value_sig(ev, st, v, sig)
+    names = set()
+    for t in sig:
+        T.atoms_of(t, names)
+    return frozenset(str(n) for n in names)
+
+
+def follow_fmt_arg(ev, st, ctx, sink, a, depth=0):
+    if isinstance(a, PrimV) and a.kind == "dyn":
+        inner, vtable, trait, orig = a.data
+        m = vtable.get("fmt")
+        if m is not None and m.get("res") and m["res"] in ev.bodies and depth < 8:
+            fmtr = Ref(st.alloc(OpaqueV(None, "formatter"), "fmt"), (), None, True)
+            c2 = CallCtx(m, [inner, fmtr], [None, None], None, ctx.span, ctx.fr)
+            ev.fmt_followed.append((sink, m["res"]))
+            ev.call_body(st, m["res"], [inner, fmtr], (ctx.fr.depth + 1) if ctx.fr else 0)
+            return
+        ev.fmt_calls.append((ctx.fr.body["key"] if ctx.fr else "?", sink, (m or {}).get("rdef", "?"), sym_names(ev, st, inner), ctx.span))
+        return
+    if isinstance(a, Ref):
+        # references to data handed to the formatter (e.g. a slice of Arguments)
+        try:
+            v = deref(ev, st, a)
+        except Unsupported:
+            v = None
+        if isinstance(v, (ArrV, Struct)):
+            for x in (v.all_elems() if isinstance(v, ArrV) and v.n <= 64 else (v.fields if isinstance(v, Struct) else [])):
+                follow_fmt_arg(ev, st, ctx, sink, x, depth + 1)
+            if isinstance(v, ArrV) and v.n > 64:
+                ev.fmt_calls.append((ctx.fr.body["key"] if ctx.fr else "?", sink, "data", sym_names(ev, st, a), ctx.span))
+            return
+        if isinstance(v, T.T):
+            ev.fmt_calls.append((ctx.fr.body["key"] if ctx.fr else "?", sink, "data", sym_names(ev, st, a), ctx.span))
+        elif isinstance(v, PrimV):
+            follow_fmt_arg(ev, st, ctx, sink, v, depth + 1)
+        return
+    if isinstance(a, T.T):
+        if a.op != "const":
+            ev.fmt_calls.append((ctx.fr.body["key"] if ctx.fr else "?", sink, "scalar", sym_names(ev, st, a), ctx.span))
+        return
+    if isinstance(a, Struct):
+        for x in a.fields:
+            follow_fmt_arg(ev, st, ctx, sink, x, depth + 1)
+        return
+    if isinstance(a, ArrV) and a.n <= 64:
+        for x in a.all_elems():
+            follow_fmt_arg(ev, st, ctx, sink, x, depth + 1)
+        return
